@@ -155,6 +155,9 @@ def write_layout(ctx, name, xs, cut, skip=()):
     main = ctx.path(name)
     if cut is None:
         texts = {name: body(0, len(xs))}
+    elif cut[0] == 'two':
+        # two files given by two -f options: read into the same journal one after the other
+        texts = {name: body(0, cut[1]), name.replace('.dat', '_second.dat'): body(cut[1], len(xs))}
     else:
         a, b = cut
         inc = name.replace('.dat', '_inc.dat')
@@ -166,7 +169,8 @@ def write_layout(ctx, name, xs, cut, skip=()):
 
 def run_layout(ctx, name, xs, cut, extra, skip=()):
     path, texts = write_layout(ctx, name, xs, cut, skip)
-    st, out, err = lib.run_ledger(['-f', path, 'reg', '--empty', '--no-rounding', '--format', X.REG_FMT] + list(extra))
+    more = ['-f', ctx.path(list(texts)[1])] if (cut and cut[0] == 'two') else []
+    st, out, err = lib.run_ledger(['-f', path] + more + ['reg', '--empty', '--no-rounding', '--format', X.REG_FMT] + list(extra))
     return st, out, err, path, texts
 
 
@@ -180,7 +184,7 @@ def run(ctx, n_override=None):
                 'accounts incl. a sub-account, 1-3 commodities, real, (virtual) and [balanced virtual] postings, an elided amount on a real or a '
                 '[balanced virtual] posting (absorbing up to three commodities), lots, dates deliberately out of file '
                 'order; `= X` on arbitrary postings: true assertions, false ones off by >= 1 display unit, bare-0 assertions, '
-                'assignments; with and without --permissive; in one file or with a stretch of the transactions in an included file; non-trivial = the transaction carries an assertion or assignment; '
+                'assignments; with and without --permissive; in one file, with a stretch of the transactions in an included file, or in two files given by two -f options; non-trivial = the transaction carries an assertion or assignment; '
                 'distinct by rendered text')
     n = n_override or ctx.scale(150, 3000)
     X.ERR_CLASSES[:] = ERRS
@@ -191,7 +195,7 @@ def run(ctx, n_override=None):
         cut = None
         if rng.random() < 0.35 and len(xs) > 2:
             a = rng.randrange(1, len(xs))
-            cut = (a, rng.randrange(a + 1, len(xs) + 1))
+            cut = (a, rng.randrange(a + 1, len(xs) + 1)) if rng.random() < 0.7 else ('two', a)
             permissive = rng.random() < 0.45
         jobs.append((j, xs, exp, permissive, cut))
         lines.append(journal_sx('j%d' % j, xs, permissive))
@@ -201,7 +205,7 @@ def run(ctx, n_override=None):
         text = X.render_journal(xs)
         extra = ['--permissive'] if permissive else []
         st, out, err, path, texts = run_layout(ctx, 'C09_%d.dat' % (j % 6), xs, cut, extra)
-        res.count('layout:' + ('included-file' if cut else 'one-file') + (':permissive' if permissive else ''))
+        res.count('layout:' + (('two-f-options' if cut[0] == 'two' else 'included-file') if cut else 'one-file') + (':permissive' if permissive else ''))
         if cut:
             text = '\n'.join('; ---- file %s\n%s' % kv for kv in texts.items())
         errs = X.parse_errors(err, path, texts)
@@ -266,7 +270,8 @@ def replay(ctx, obj):
         names = list(case['files'])
         for k, v in case['files'].items():
             open(ctx.path(k), 'w').write(v)
-        st, out, err = lib.run_ledger(['-f', ctx.path(names[0]), 'reg', '--empty', '--no-rounding', '--format', X.REG_FMT] + (['--permissive'] if case.get('permissive') else []))
+        more = ['-f', ctx.path(names[1])] if names[1].endswith('_second.dat') else []
+        st, out, err = lib.run_ledger(['-f', ctx.path(names[0])] + more + ['reg', '--empty', '--no-rounding', '--format', X.REG_FMT] + (['--permissive'] if case.get('permissive') else []))
         print('status', st)
         print(out.decode()[:3000])
         print(err.decode()[:3000])
